@@ -230,6 +230,11 @@ pub fn run(name: &str, a: &Args) -> Option<String> {
                         }
                         _ => {}
                     }
+                    // the fields of an epoch built from valid fields are those fields (an inserted second reads back as :59)
+                    if sec < 60 && !(mo == 2 && d > 29) && h < 24 && ns < 1_000_000_000 {
+                        let f = greg_fields(e);
+                        assert!(f == (y as i64, mo, d, h, mi, sec, ns), "fields read back differ from the fields given");
+                    }
                     format!("1 {}", pep(e))
                 }
                 Err(hifitime::HifitimeError::InvalidGregorianDate) => "E1".to_string(),
@@ -242,7 +247,17 @@ pub fn run(name: &str, a: &Args) -> Option<String> {
             let e = epoch(a, 0);
             // compute_gregorian is private: observe it through to_gregorian_str in the epoch's own scale and the accessors
             let (y, m, d, h, mi, s, ns) = greg_fields(e);
-            format!("{y} {m} {d} {h} {mi} {s} {ns}")
+            // the fields, used to build an epoch in the same scale, give back the identical epoch
+            // (only within 3 000 000 years of 1900, the range the model's closed-form day count covers: "*" beyond)
+            let back = if (y - 1900).abs() > 3_000_000 {
+                "*".to_string()
+            } else {
+                match Epoch::maybe_from_gregorian(y as i32, m, d, h, mi, s, ns, e.time_scale) {
+                    Ok(b) => format!("1 {}", pep(b)),
+                    Err(_) => "0".to_string(),
+                }
+            };
+            format!("{y} {m} {d} {h} {mi} {s} {ns} {back}")
         }
         "weekday" => format!("{}", u8::from(epoch(a, 0).weekday())),
         "weekday_utc" => format!("{}", u8::from(epoch(a, 0).weekday_utc())),
